@@ -125,9 +125,9 @@ Definition wf_field (fuel: nat) (f: gfield) : Prop :=
 
 Lemma field_step fuel k f acc more : wf_field fuel f -> (more = [] \/ exists r, more = TP PComma :: r) ->
   fields_loop fuel (S k) true acc (lex_field f ++ more) =
-  fields_loop fuel k true (acc ++ [exp_field f]) (match more with TP _ :: r => r | _ => more end).
+  fields_loop fuel k true (acc ++ [exp_field3 f]) (match more with TP _ :: r => r | _ => more end).
 Proof.
-  intros (Wa & Wn & Wt & Wd) Hm. cbn [fields_loop]. unfold lex_field. rewrite <- !app_assoc.
+  intros (Wa & Wn & Wt & Wd) Hm. unfold fields_loop. cbn [fields_nt]. unfold lex_field. rewrite <- !app_assoc.
   destruct (flat_map lex_attr (gf_attrs f) ++ lex_vis (gf_vis f) ++ (TId (gf_name f) :: TP PColon :: lex (gf_ty f)) ++ more) as [|t0 s0] eqn:E.
   { exfalso. destruct (gf_vis f); destruct (flat_map lex_attr (gf_attrs f)); cbn in E; discriminate. }
   rewrite <- E. clear E t0 s0.
@@ -142,11 +142,11 @@ Proof.
     - change ("pub" =? "pub") with true. cbn iota. reflexivity. }
   rewrite V. cbn [app bind].
   assert (Hs: stop more) by (destruct Hm as [->|(r & ->)]; exact I).
-  rewrite (proj1 (all_wf_types (gf_ty f) Wt) fuel more Wd Hs). cbn [expect bind]. unfold exp_field. reflexivity.
+  rewrite (proj1 (all_wf_types (gf_ty f) Wt) fuel more Wd Hs). cbn [expect bind]. unfold exp_field3. reflexivity.
 Qed.
 
 Lemma fields_ok fuel : forall fs k acc tr, List.length fs < k -> Forall (wf_field fuel) fs -> (tr = true -> fs <> []) ->
-  fields_loop fuel k true acc (lex_body fs tr) = Ok (acc ++ map exp_field fs) [].
+  fields_loop fuel k true acc (lex_body fs tr) = Ok (acc ++ map exp_field3 fs) [].
 Proof.
   unfold lex_body. induction fs as [|f fs IH]; intros k acc tr Hk W Htr.
   - destruct tr; [exfalso; apply Htr; reflexivity|]. destruct k; [cbn in Hk; lia|]. cbn. rewrite app_nil_r. reflexivity.
@@ -158,7 +158,7 @@ Proof.
         destruct k; [cbn in Hk; lia|]. cbn. reflexivity.
     + rewrite sep_comma_two, <- app_assoc. cbn [app].
       rewrite (field_step fuel k f acc _ Wf); [|right; eexists; reflexivity].
-      rewrite (IH k (acc ++ [exp_field f]) tr); [|cbn in Hk |- *; lia|exact Wr|intros _; discriminate].
+      rewrite (IH k (acc ++ [exp_field3 f]) tr); [|cbn in Hk |- *; lia|exact Wr|intros _; discriminate].
       cbn [map]. rewrite <- app_assoc. reflexivity.
 Qed.
 
@@ -516,29 +516,125 @@ Qed.
 Definition wf_decl (fuel: nat) (d: gdecl) : Prop :=
   Forall wf_attr (d_attrs d) /\ wf_generics fuel (d_generics d) /\ Forall (wf_field fuel) (d_fields d) /\ (d_trailing d = true -> d_fields d <> []).
 
-Theorem struct_parse_complete fuel d : wf_decl fuel d -> parse_data dedup_ty dedup_lt fuel (lexd d) = Ok (expected dedup_ty dedup_lt d) [].
+Lemma next_struct_ok fuel d : wf_decl fuel d ->
+  next_struct dedup_ty dedup_lt fuel (TId (d_name d) :: lex_generics (d_generics d) ++ [TG Brace (lex_body (d_fields d) (d_trailing d))])
+  = Ok {| s_name := Some (d_name d); s_named := true; s_fields := map exp_field (d_fields d); s_attrs := []; s_generics := exp_generics dedup_ty dedup_lt (d_generics d) |} [].
 Proof.
-  intros (Wa & Wg & Wf & Wt). unfold parse_data, lexd.
-  rewrite attrs_list_ok; [| |exact Wa|destruct (d_pub d); exact I].
-  2:{ rewrite app_length. pose proof (length_flat_attrs (d_attrs d)). lia. }
-  cbn [bind].
-  assert (K: forall X, (if d_pub d then [TId "pub"] else []) ++ TId "struct" :: X = (if d_pub d then [TId "pub"] else []) ++ TId "struct" :: X) by reflexivity.
-  assert (Kw: match (if d_pub d then [TId "pub"] else []) ++ TId "struct" :: TId (d_name d) :: lex_generics (d_generics d) ++ [TG Brace (lex_body (d_fields d) (d_trailing d))] with
-              | TId w :: s2 => bind (if w =? "pub" then match s2 with TId k :: s3 => Ok k s3 | _ => Panic end else Ok w s2)
-                   (fun k s3 => if k =? "struct" then bind (next_struct dedup_ty dedup_lt fuel s3) (fun st s4 => match s4 with
-                        | [] => Ok {| s_name := s_name st; s_named := s_named st; s_fields := s_fields st; s_attrs := [] ++ exp_attrs (d_attrs d); s_generics := s_generics st |} []
-                        | _ => Panic end) else if k =? "enum" then Unsup else Panic)
-              | _ => Panic end
-              = bind (next_struct dedup_ty dedup_lt fuel (TId (d_name d) :: lex_generics (d_generics d) ++ [TG Brace (lex_body (d_fields d) (d_trailing d))])) (fun st s4 => match s4 with
-                        | [] => Ok {| s_name := s_name st; s_named := s_named st; s_fields := s_fields st; s_attrs := [] ++ exp_attrs (d_attrs d); s_generics := s_generics st |} []
-                        | _ => Panic end)).
-  { destruct (d_pub d); reflexivity. }
-  rewrite Kw. clear K Kw.
-  unfold next_struct. rewrite (get_all_bounds_ok fuel (d_generics d) _ [] Wg). cbn [bind].
+  intros (Wa & Wg & Wf & Wt). unfold next_struct. rewrite (get_all_bounds_ok fuel (d_generics d) _ [] Wg). cbn [bind].
   rewrite fields_ok; [| |exact Wf|exact Wt].
   2:{ unfold lex_body. rewrite app_length. pose proof (length_sep_comma_ge lex_field (d_fields d)
         ltac:(intros a; unfold lex_field; rewrite !app_length; cbn; lia)). lia. }
-  cbn [bind app]. reflexivity.
+  cbn [bind app]. rewrite map_map. reflexivity.
+Qed.
+
+Theorem struct_parse_complete fuel d : wf_decl fuel d -> parse_data dedup_ty dedup_lt fuel (lexd d) = Ok (DStruct (expected dedup_ty dedup_lt d)) [].
+Proof.
+  intros W. pose proof (next_struct_ok fuel d W) as NS. destruct W as (Wa & Wg & Wf & Wt). unfold parse_data, lexd.
+  rewrite attrs_list_ok; [| |exact Wa|destruct (d_pub d); exact I].
+  2:{ rewrite app_length. pose proof (length_flat_attrs (d_attrs d)). lia. }
+  cbn [bind].
+  remember (next_struct dedup_ty dedup_lt fuel) as NSf eqn:E.
+  destruct (d_pub d); cbn; rewrite NS; reflexivity.
 Qed.
 End WithDedup.
 Print Assumptions struct_parse_complete.
+
+(* ---------- enums ---------- *)
+Definition nocomma (r: list tt) : Prop := match r with TP PComma :: _ => False | TP PSemi :: _ => False | _ => True end.
+Definition wf_vbody (fuel: nat) (b: gvbody) : Prop :=
+  match b with
+  | VUnit => 1 <= fuel
+  | VTuple l tr => wf (GTuple l tr) /\ depth (GTuple l tr) < fuel
+  | VStruct fs tr => (exists f, fuel = S f /\ Forall (wf_field f) fs) /\ (tr = true -> fs <> [])
+  end.
+Definition wf_variant (fuel: nat) (v: gvariant) : Prop := Forall wf_attr (gv_attrs v) /\ wf_vbody fuel (gv_body v).
+
+Lemma lex_variant_head v more : nopunct (TId (gv_name v) :: lex_vbody (gv_body v) ++ more). Proof. exact I. Qed.
+
+Lemma variant_step fuel k v acc more : wf_variant fuel v -> (more = [] \/ exists r, more = TP PComma :: r /\ nocomma r) ->
+  variants_loop fuel (S k) acc (lex_variant v ++ more) =
+  variants_loop fuel k (acc ++ [exp_variant v]) (match more with TP PComma :: r => r | _ => more end).
+Proof.
+  intros (Wa & Wb) Hm. cbn [variants_loop]. unfold lex_variant. rewrite <- app_assoc. cbn [app].
+  destruct (flat_map lex_attr (gv_attrs v) ++ TId (gv_name v) :: lex_vbody (gv_body v) ++ more) as [|t0 s0] eqn:E.
+  { exfalso. destruct (flat_map lex_attr (gv_attrs v)); cbn in E; discriminate. }
+  rewrite <- E. clear E t0 s0.
+  rewrite attrs_list_ok; [| |exact Wa|exact I].
+  2:{ rewrite !app_length. pose proof (length_flat_attrs (gv_attrs v)). cbn [List.length]. lia. }
+  cbn [bind app]. unfold exp_variant.
+  destruct (gv_body v) as [|l tr|fs tr]; cbn [lex_vbody exp_vbody app] in *.
+  - (* unit variant *)
+    destruct Hm as [->|(r & -> & Hr)].
+    + reflexivity.
+    + destruct fuel as [|f]; [cbn in Wb; lia|]. cbn [next_type bind].
+      destruct r as [|[s|[]|l|d ts] r]; cbn in Hr; try contradiction; reflexivity.
+  - (* tuple-like variant *)
+    destruct Wb as [Wt Dt].
+    assert (Hs: stop more) by (destruct Hm as [->|(r & -> & _)]; exact I).
+    assert (NE: exists t0 s0, lex (GTuple l tr) ++ more = t0 :: s0) by (cbn [lex app]; eexists; eexists; reflexivity).
+    destruct NE as (t0 & s0 & NE). rewrite NE. rewrite <- NE. clear NE t0 s0.
+    rewrite (proj1 (all_wf_types (GTuple l tr) Wt) fuel more Dt Hs). cbn [bind].
+    destruct Hm as [->|(r & -> & Hr)]; reflexivity.
+  - (* struct-like variant *)
+    destruct Wb as [(f & -> & Wf) Htr].
+    cbn [next_type ref_prefix bind after_ref]. fold (fields_loop f (S (List.length (lex_body fs tr))) true [] (lex_body fs tr)).
+    rewrite fields_ok; [| |exact Wf|exact Htr].
+    2:{ unfold lex_body. rewrite app_length. pose proof (length_sep_comma_ge lex_field fs
+          ltac:(intros a; unfold lex_field; rewrite !app_length; cbn; lia)). lia. }
+    cbn [bind app]. destruct Hm as [->|(r & -> & Hr)]; reflexivity.
+Qed.
+
+Lemma nocomma_variants v2 (r: list gvariant) tr : nocomma (sep_comma (map lex_variant (v2 :: r)) ++ trail tr).
+Proof.
+  assert (H: forall X, nocomma (lex_variant v2 ++ X)).
+  { intros X. unfold lex_variant. destruct (gv_attrs v2) as [|a0 as0]; cbn [flat_map app]; [exact I|]. destruct a0; exact I. }
+  destruct r as [|v3 r]; [cbn [map sep_comma]; apply H|]. rewrite sep_comma_two, <- app_assoc. apply H.
+Qed.
+
+Lemma variants_ok fuel : forall vs k acc tr, List.length vs < k -> Forall (wf_variant fuel) vs -> (tr = true -> vs <> []) ->
+  variants_loop fuel k acc (sep_comma (map lex_variant vs) ++ trail tr) = Ok (acc ++ map exp_variant vs) [].
+Proof.
+  induction vs as [|v vs IH]; intros k acc tr Hk W Htr.
+  - destruct tr; [exfalso; apply Htr; reflexivity|]. destruct k; [cbn in Hk; lia|]. cbn. rewrite app_nil_r. reflexivity.
+  - inversion W as [|? ? Wv Wr]; subst. destruct k as [|k]; [cbn in Hk; lia|]. destruct vs as [|v2 r].
+    + cbn [map sep_comma]. destruct tr; cbn [trail].
+      * rewrite (variant_step fuel k v acc [TP PComma] Wv); [|right; exists []; split; [reflexivity|exact I]].
+        destruct k; [cbn in Hk; lia|]. cbn. reflexivity.
+      * rewrite app_nil_r. rewrite <- (app_nil_r (lex_variant v)). rewrite (variant_step fuel k v acc [] Wv); [|left; reflexivity].
+        destruct k; [cbn in Hk; lia|]. cbn. reflexivity.
+    + rewrite sep_comma_two, <- app_assoc. cbn [app].
+      rewrite (variant_step fuel k v acc _ Wv).
+      2:{ right. eexists. split; [reflexivity|]. apply nocomma_variants. }
+      rewrite (IH k (acc ++ [exp_variant v]) tr); [|cbn in Hk |- *; lia|exact Wr|intros _; discriminate].
+      cbn [map]. rewrite <- app_assoc. reflexivity.
+Qed.
+
+Section WithDedupEnum.
+Variable dedup_ty : list ty -> list ty.
+Variable dedup_lt : list string -> list string.
+Definition wf_enum (fuel: nat) (e: genum) : Prop :=
+  Forall wf_attr (en_attrs e) /\ wf_generics fuel (en_generics e) /\ Forall (wf_variant fuel) (en_variants e) /\ (en_trailing e = true -> en_variants e <> []).
+
+Lemma next_enum_ok fuel e : wf_enum fuel e ->
+  next_enum dedup_ty dedup_lt fuel (TId (en_name e) :: lex_generics (en_generics e) ++ [TG Brace (sep_comma (map lex_variant (en_variants e)) ++ trail (en_trailing e))])
+  = Ok (expected_enum dedup_ty dedup_lt e) [].
+Proof.
+  intros (Wa & Wg & Wv & Wt). unfold next_enum. rewrite (get_all_bounds_ok dedup_ty dedup_lt fuel (en_generics e) _ [] Wg). cbn [bind].
+  rewrite variants_ok; [reflexivity| |exact Wv|exact Wt].
+  rewrite app_length. pose proof (length_sep_comma_ge lex_variant (en_variants e)
+    ltac:(intros a; unfold lex_variant; rewrite !app_length; cbn; lia)). lia.
+Qed.
+
+(* every well-formed enum declaration - unit, tuple-like and struct-like variants with their attributes, with or without the last comma -
+   is parsed to exactly the expected structure *)
+Theorem enum_parse_complete fuel e : wf_enum fuel e -> parse_data dedup_ty dedup_lt fuel (lexe e) = Ok (DEnum (expected_enum dedup_ty dedup_lt e)) [].
+Proof.
+  intros W. pose proof (next_enum_ok fuel e W) as NE. destruct W as (Wa & Wg & Wv & Wt). unfold parse_data, lexe.
+  rewrite attrs_list_ok; [| |exact Wa|destruct (en_pub e); exact I].
+  2:{ rewrite app_length. pose proof (length_flat_attrs (en_attrs e)). lia. }
+  cbn [bind]. fold (trail (en_trailing e)).
+  remember (next_enum dedup_ty dedup_lt fuel) as NEf eqn:E.
+  destruct (en_pub e); cbn; rewrite NE; reflexivity.
+Qed.
+End WithDedupEnum.
+Print Assumptions enum_parse_complete.
